@@ -960,7 +960,7 @@ def group_judge(sc, res):
                             "what": "unicast scan: completion is decided by counting datagrams (%s); the returned "
                                     "configurations differ" %
                                     ("a duplicate is counted as a further response" if dup else
-                                     "more datagrams than queries, only the first ones are used"),
+                                     "the number of answer datagrams differs from the number of queries: surplus ones are cut, too few give nothing"),
                             "order": spec, "base": bspec})
     return out
 
@@ -1093,11 +1093,16 @@ def replay(ctx, path):
     logging.disable(logging.CRITICAL)
     d = json.load(open(path))
     r = d.get("replay")
+    if not r and "scenario" in d:      # a corpus file
+        r = {"scenario": d["scenario"]}
+        corpus_runs = d.get("orders")
+    else:
+        corpus_runs = None
     if not r:
         print(json.dumps(d.get("broken", d), indent=1)[:6000])
         return 1
     sc = r["scenario"]
-    runs = [o for o in (r.get("base"), r.get("order")) if o is not None]
+    runs = corpus_runs or [o for o in (r.get("base"), r.get("order")) if o is not None]
     if not runs:
         runs = [list(range(len(sc["dgrams"])))]
     enc, res = safe_run_scenario(sc, runs)
